@@ -10,6 +10,7 @@ const Instrumented = true
 
 func init() {
 	verifyield.Hook = SoftYield
+	verifyield.HookS = SoftYieldShared
 	verifyield.LockHook = NoteLocked
 	verifyield.UnlockHook = NoteUnlocked
 }
